@@ -144,6 +144,9 @@ def analyse(ctx, label, ops, known_open):
         if hit is not None:
             ctx.notes.append('%s: model/implementation difference (oracle satisfied) inside known-finding class %s at %r'
                              % (label, hit['id'], ops[i][:80]))
+        elif getattr(prop, 'unspecified', None) and st.spec[i] == '*' and prop.unspecified(ops[s:i + 1]):
+            ctx.notes.append('%s: model/implementation difference in territory the properties leave open at %r'
+                             % (label, ops[i][:80]))
         else:
             kept.append((s, e, i))
     tie_broken_eps = kept
